@@ -4,6 +4,9 @@ CONSTANTS
   MaxBlocks = 7
   Arities = {0, 1, 2, 4}
   FootK = 1
+  MaxLevel = 4
+  EmitFrom = 1
+  EmitOneIn = 1
 INVARIANT HeapConsistent
 INVARIANT Footprint
 CONSTRAINT Bounded
